@@ -24,19 +24,279 @@ statement is kept as a `def … : Prop`, the proved part is `…_partial`-style
 proved; the oracle of harness/props/c13.py replays the same witnesses on the
 real code (known findings F50-F54).
 -/
-import TraitsVerif.Lemmas.ResolvePolicy
+import TraitsVerif.Lemmas.ResolveSource5
+import TraitsVerif.Lemmas.ResolveSource6
+import TraitsVerif.Generated.PrefixTable
 namespace TraitsVerif.Props.C13
 open TraitsVerif TraitsVerif.Model.Resolve
 
-/-! ## The tie to the source: sort key, direction, match expression -/
+/-! ## The tie to the source: how the wildcard table of a class is built -/
 
-/-- What `harness/translate/prefix.py` reads from `update_traits_class_dict`
-(`prefix_list.sort(key=len, reverse=True)`, stored as `prefix_traits['*']`,
-wildcard = trailing `_`, '' default, merge test) and from `__prefix_trait__`
-(`for prefix in prefix_traits['*']: if prefix == name[:len(prefix)]: … return`)
-is what `sortPrefixes` / `firstMatch` / `isDunder` / `endsUnderscore` of the
-model were written from. -/
-theorem C13_sort_is_modelled : generatedFacts = modelFacts := by rfl
+open TraitsVerif.Model.PrefixTable in
+/-- `harness/translate/prefixtable.py` reads every statement of
+`update_traits_class_dict` that touches `prefix_list` / stores into
+`prefix_traits`, **in source order**, as steps (`Generated/PrefixTable.lean`:
+start empty; declaration loop — a name ending in `_` is a wildcard for
+`name[:-1]`; merge of the bases' tables, a prefix only if not yet present;
+`''` ↦ `Python()` when absent; `prefix_traits["*"] = prefix_list`;
+`prefix_list.sort(key=len, reverse=True)`).  For **all** bases and declarations
+the model's table `(mkClass bases decls).prefixes` is the interpretation of
+those steps — so their order (e.g. sorting before the bases are merged), the
+wildcard test, the stem, the guard of the merge, the default key and the sort
+key / direction are the source's.  (Replaces the string-constant tie
+`C13_sort_is_modelled` of `translate/prefix.py`, which renaming a local broke.) -/
+theorem C13_prefix_table_is_source (bases : List Cls) (decls : List (Name × Trait)) :
+    tableOf bases decls Generated.PrefixTable.steps = some (mkClass bases decls).prefixes := by
+  simp only [tableOf, Generated.PrefixTable.steps, List.foldl, stepT]
+  simp only [mkClass, ensureDefault, ownPrefixes, endsUnderscore, stem, bne, Bool.not_not]
+  rfl
+
+/-! ## The tie to the source: the lookup code itself
+
+`harness/translate/resolve_c.py` and `resolve_py.py` turn the source text of
+`get_prefix_trait`, `has_traits_setattro`, `has_traits_getattro`, `get_trait`,
+`setattr_python / _disallow / _readonly / _constant`, `getattr_event /
+_disallow / _constant` and the error helpers (ctraits.c) and of
+`HasTraits.__prefix_trait__`, `add_trait`, `remove_trait`, `trait`,
+`base_trait` (has_traits.py) into programs of the deep-embedded language
+`Model/ResL.lean` (Generated/ResolveC.lean, Generated/ResolvePy.lean).  The
+theorems below say that the hand-written functions of `Model/Resolve.lean` are
+**equal to the interpretation of those programs, for all inputs**.
+
+`ResL.user7 E` is the function environment in which every translated function
+is bound to (the interpretation of) its generated program; `St.init w oi o c nI
+nO` is the start state, `nI` / `nO` saying that the C pointers
+`obj->itrait_dict` / `obj->obj_dict` are NULL (only possible while the
+dictionary is empty): the theorems hold for both values, i.e. the code treats a
+NULL and an empty dictionary alike.  `NoStar c`: no wildcard prefix of the class
+is literally `*` (the key under which the code stores the prefix list itself).
+The `as…` functions read an interpreter result back into the model's result
+type; they return `none` when the interpreter was stuck (unknown statement,
+unknown callee, ill-typed primitive call), so every equality below also says
+that the interpretation is never stuck. -/
+
+open TraitsVerif.Model.ResL in
+/-- `trait->setattr` / `trait->getattr` (the model's `setattrKind` /
+`getattrKind`) for the kinds whose handlers are translated: row `kind` of
+`setattr_handlers[]` / `getattr_handlers[]` is the named C function, and the
+model's arm for that kind equals the interpretation of that function's source
+(`setattr_python`, `setattr_disallow`, `setattr_readonly` — including the calls
+of `setattr_python` it makes —, `setattr_constant`, `getattr_event`,
+`getattr_disallow`, `getattr_constant`; which exception each of them raises is
+read from `set_disallow_error`, `set_readonly_error`, `delete_readonly_error`,
+`unknown_attribute_error`, whose sources are interpreted as well). -/
+theorem C13_policy_is_source (E : Env) (st : St) (t t' : Trait) (k : Name) (value : Option Val)
+    (hO : st.nullO = true → st.o.dict = []) :
+    (Generated.ResolveC.setattrHandlers[1]? = some .setattr_python ∧
+     Generated.ResolveC.setattrHandlers[5]? = some .setattr_disallow ∧
+     Generated.ResolveC.setattrHandlers[6]? = some .setattr_readonly ∧
+     Generated.ResolveC.setattrHandlers[7]? = some .setattr_constant ∧
+     Generated.ResolveC.getattrHandlers[2]? = some .getattr_event ∧
+     Generated.ResolveC.getattrHandlers[4]? = some .getattr_event ∧
+     Generated.ResolveC.getattrHandlers[5]? = some .getattr_disallow ∧
+     Generated.ResolveC.getattrHandlers[7]? = some .getattr_constant) ∧
+    (t.kind = .python → asDict (user7 E .setattr_python [.trait t', .trait t, .obj, .name k, vOpt value] st)
+        = some (setattrKind E t st.o.dict k value)) ∧
+    (t.kind = .disallow → asDict (user7 E .setattr_disallow [.trait t', .trait t, .obj, .name k, vOpt value] st)
+        = some (setattrKind E t st.o.dict k value)) ∧
+    (t.kind = .readonly → asDict (user7 E .setattr_readonly [.trait t', .trait t, .obj, .name k, vOpt value] st)
+        = some (setattrKind E t st.o.dict k value)) ∧
+    (t.kind = .constant → asDict (user7 E .setattr_constant [.trait t', .trait t, .obj, .name k, vOpt value] st)
+        = some (setattrKind E t st.o.dict k value)) ∧
+    (t.kind = .event → asValDict (user7 E .getattr_event [.trait t, .obj, .name k] st)
+        = some (getattrKind E t st.o.dict k)) ∧
+    (t.kind = .disallow → asValDict (user7 E .getattr_disallow [.trait t, .obj, .name k] st)
+        = some (getattrKind E t st.o.dict k)) ∧
+    (t.kind = .constant → asValDict (user7 E .getattr_constant [.trait t, .obj, .name k] st)
+        = some (getattrKind E t st.o.dict k)) := by
+  refine ⟨by decide, ?_, ?_, ?_, ?_, ?_, ?_, ?_⟩
+  · intro hk
+    rw [show user7 E .setattr_python [.trait t', .trait t, .obj, .name k, vOpt value] st
+      = user2 E .setattr_python [.trait t', .trait t, .obj, .name k, vOpt value] st from rfl,
+      setattr_python_src E st t' t k value hO]
+    simp [setattrKind, hk]
+  · intro hk
+    rw [show user7 E .setattr_disallow [.trait t', .trait t, .obj, .name k, vOpt value] st
+      = user2 E .setattr_disallow [.trait t', .trait t, .obj, .name k, vOpt value] st from rfl,
+      setattr_disallow_src]
+    simp [setattrKind, hk]
+  · intro hk
+    rw [show user7 E .setattr_readonly [.trait t', .trait t, .obj, .name k, vOpt value] st
+      = user3 E .setattr_readonly [.trait t', .trait t, .obj, .name k, vOpt value] st from rfl,
+      setattr_readonly_src E st t' t k value hk hO]
+  · intro hk
+    rw [show user7 E .setattr_constant [.trait t', .trait t, .obj, .name k, vOpt value] st
+      = user2 E .setattr_constant [.trait t', .trait t, .obj, .name k, vOpt value] st from rfl,
+      setattr_constant_src]
+    simp [setattrKind, hk]
+  · intro hk
+    rw [show user7 E .getattr_event [.trait t, .obj, .name k] st
+      = user2 E .getattr_event [.trait t, .obj, .name k] st from rfl, getattr_event_src]
+    simp [getattrKind, hk]
+  · intro hk
+    rw [show user7 E .getattr_disallow [.trait t, .obj, .name k] st
+      = user2 E .getattr_disallow [.trait t, .obj, .name k] st from rfl, getattr_disallow_src]
+    simp [getattrKind, hk]
+  · intro hk
+    rw [show user7 E .getattr_constant [.trait t, .obj, .name k] st
+      = user2 E .getattr_constant [.trait t, .obj, .name k] st from rfl, getattr_constant_src]
+    simp [getattrKind, hk]
+
+open TraitsVerif.Model.ResL in
+/-- `HasTraits.__prefix_trait__(name, is_set)`: the model's `prefixTrait` (the
+`__xxx__` rules, the `name_` delegate shadow through `self._trait(name[:-1],
+0)`, the first match in `prefix_traits["*"]`, SystemError when nothing matches)
+is the interpretation of the method's source.  The loop is interpreted for
+lists of **any** length (induction in `Lemmas/ResolveSource2.prefix_loop_aux`). -/
+theorem C13_prefix_trait_is_source (E : Env) (w : World) (oi : Nat) (o : Obj) (c : Cls) (name : Name) (isSet : Bool)
+    (nI nO : Bool) (hI : nI = true → o.itraits = []) (hstar : NoStar c) :
+    asTrait (user7 E .m_prefix_trait [.obj, .name name, .int (if isSet then 1 else 0)] (St.init w oi o c nI nO))
+      = some (prefixTrait c o name isSet) := by
+  rw [show user7 E .m_prefix_trait [.obj, .name name, .int (if isSet then 1 else 0)] (St.init w oi o c nI nO)
+    = user5 E .m_prefix_trait [.obj, .name name, .int (if isSet then 1 else 0)] (St.init w oi o c nI nO) from rfl,
+    prefix_trait_src E _ name isSet hI hstar]
+  unfold prefixTraitV
+  simp only [St.init]
+  cases h : prefixTrait c o name isSet <;> simp [asTrait]
+
+open TraitsVerif.Model.ResL in
+/-- `get_prefix_trait(obj, name, is_set)`: call `__prefix_trait__`, **store the
+result in the class dictionary**, fire `trait_added`, resolve the name again
+with `get_trait(obj, name, 0)` — the model's `getPrefixTrait` is the
+interpretation of the C source (and of the sources it calls). -/
+theorem C13_get_prefix_trait_is_source (E : Env) (w : World) (oi : Nat) (o : Obj) (c : Cls) (name : Name)
+    (isSet : Bool) (nI nO : Bool) (hI : nI = true → o.itraits = []) (hstar : NoStar c) :
+    asWorldTrait (user7 E .get_prefix_trait [.obj, .name name, .int (if isSet then 1 else 0)]
+        (St.init w oi o c nI nO))
+      = some (getPrefixTrait w oi o c name isSet) := by
+  rw [user7_get_prefix_trait, get_prefix_trait_src E _ name isSet hI hstar]
+  unfold getPrefixTraitV getPrefixTrait
+  simp only [St.init]
+  cases prefixTrait c o name isSet with
+  | error e => simp [asWorldTrait]
+  | ok t =>
+    cases hfi : (fireTraitAdded o name).itraits.get name <;>
+      simp [asWorldTrait, St.fire, St.putCTraits, St.putObj, hfi]
+
+open TraitsVerif.Model.ResL in
+/-- **The lookup is the source.**  `setattr` / `delattr` (`value = none`) and
+`getattr` of the model are the interpretation of `has_traits_setattro` and
+`has_traits_getattro`: the `__dict__` short cut of reads, instance-trait
+dictionary before class-trait dictionary, `PyObject_GenericGetAttr` before the
+prefix fallback on reads, `get_prefix_trait` (with its caching into the class
+dictionary) last, then the dispatch through `trait->setattr` / `trait->getattr`,
+and `-1` / `NULL` with the pending exception on every failure path. -/
+theorem C13_lookup_is_source (E : Env) (w : World) (oi : Nat) (o : Obj) (c : Cls) (name : Name)
+    (nI nO : Bool) (hI : nI = true → o.itraits = []) (hO : nO = true → o.dict = []) (hstar : NoStar c) :
+    (∀ value : Option Val,
+      asSet (user7 E .has_traits_setattro [.obj, .name name, vOpt value] (St.init w oi o c nI nO))
+        = some (setattro E w oi o c name value)) ∧
+    asGet (user7 E .has_traits_getattro [.obj, .name name] (St.init w oi o c nI nO))
+      = some (getattro E w oi o c name) :=
+  ⟨fun value => setattro_src E w oi o c name value nI nO hI hstar, getattro_src E w oi o c name nI nO hI hO hstar⟩
+
+open TraitsVerif.Model.ResL in
+/-- … and so is what `step` does for `get` / `set` / `del` on an existing object. -/
+theorem C13_step_is_source (E : Env) {w : World} {oi : Nat} {o : Obj} {c : Cls}
+    (ho : w.objs[oi]? = some o) (hc : w.classes[o.cls]? = some c) (name : Name)
+    (nI nO : Bool) (hI : nI = true → o.itraits = []) (hO : nO = true → o.dict = []) (hstar : NoStar c) :
+    (∀ v, some (step E w (.set oi name v)) =
+      asSet (user7 E .has_traits_setattro [.obj, .name name, .val v] (St.init w oi o c nI nO))) ∧
+    some (step E w (.del oi name)) =
+      asSet (user7 E .has_traits_setattro [.obj, .name name, .null] (St.init w oi o c nI nO)) ∧
+    some (step E w (.get oi name)) =
+      asGet (user7 E .has_traits_getattro [.obj, .name name] (St.init w oi o c nI nO)) := by
+  refine ⟨fun v => ?_, ?_, ?_⟩
+  · rw [step_set_eq E ho hc]; exact (setattro_src E w oi o c name (some v) nI nO hI hstar).symm
+  · rw [step_del_eq E ho hc]; exact (setattro_src E w oi o c name none nI nO hI hstar).symm
+  · rw [step_get_eq E ho hc]; exact (getattro_src E w oi o c name nI nO hI hO hstar).symm
+
+open TraitsVerif.Model.ResL in
+/-- The full-strength statement for `get_trait(obj, name, instance)`: **every**
+`instance` (`1`: existing instance trait or None; `0`: existing instance or
+class trait or None; negative: force the prefix resolution; `≥ 2`: clone the
+resolved trait into the instance-trait dictionary, creating the dictionary when
+`obj->itrait_dict` is still NULL), no condition on `trait_added` listeners. -/
+def C13_get_trait_is_source_full : Prop :=
+  ∀ (E : Env) (w : World) (oi : Nat) (o : Obj) (c : Cls) (name : Name) (inst : Int) (nI nO : Bool),
+    (nI = true → o.itraits = []) → NoStar c → w.objs[oi]? = some o →
+    asGetTrait (user7 E .get_trait [.obj, .name name, .int inst] (St.init w oi o c nI nO))
+      = some (getTrait w oi o c name inst)
+
+open TraitsVerif.Model.ResL in
+/-- The model's `getTrait` is the interpretation of the C source of `get_trait`,
+at full strength.  (On the tree before repair 80abfdf this was refuted —
+finding F106: the function tested the NULL `obj->itrait_dict` it had read
+*before* calling `get_prefix_trait` and overwrote the dictionary a
+`trait_added` handler had created meanwhile; the repaired function re-reads the
+pointer, and the case `nI = true` with a firing listener below goes through.) -/
+theorem C13_get_trait_is_source : C13_get_trait_is_source_full := by
+  intro E w oi o c name inst nI nO hI hstar ho
+  by_cases h : inst ≤ 1
+  · exact (get_trait_src E w oi o c name inst nI nO hI hstar (by omega)).1
+  · exact get_trait_clone_src E w oi o c name inst nI nO hI hstar ho (by omega)
+
+open TraitsVerif.Model.ResL in
+/-- The Python method `_trait(name, instance)`: `has_traits_methods[]` binds it to
+`_has_traits_trait`, whose source (read with `PyArg_ParseTuple(args, "Oi",
+&name, &instance)` as the binding of its two parameters) returns exactly what
+`get_trait(obj, name, instance)` returns for every `instance ≥ -1` — which is
+why the interpreter runs the program of `get_trait` for `self._trait(...)`
+(`Fn.m_trait`).  The delegate chain of `instance = -2` (`base_trait`) is not
+interpreted. -/
+theorem C13_trait_call_is_source (E : Env) (st : St) (name : Name) (inst : Int) (hinst : -1 ≤ inst) :
+    Generated.ResolveC.traitMethodRow = ("_has_traits_trait", "METH_VARARGS") ∧
+    asGetTrait (user8 E .has_traits_trait [.obj, .name name, .int inst] st) =
+      asGetTrait (user7 E .get_trait [.obj, .name name, .int inst] st) ∧
+    user7 E .m_trait [.obj, .name name, .int inst] st = user7 E .get_trait [.obj, .name name, .int inst] st :=
+  ⟨rfl, has_traits_trait_src E st name inst hinst, rfl⟩
+
+/-- An object without instance-trait dictionary whose `trait_added` listener adds
+an instance trait for every new name. -/
+def staleObj : Obj := { cls := 0, hooks := [([], { kind := .trait, dflt := .int 7, tag := 9 })] }
+def staleCls : Cls := { ctraits := [], prefixes := [([], pythonDefault)], decl := [] }
+def staleWorld : World := { classes := [staleCls], objs := [staleObj] }
+
+open TraitsVerif.Model.ResL in
+/-- Regression for F106, on the interpretation of the repaired source: after
+`_trait('a', 2)` on that object (NULL dictionary, listener fires during the
+resolution) the instance trait the listener added is still there and governs. -/
+example :
+    (asGetTrait (user7 Env.sample .get_trait [.obj, .name ['a'], .int 2]
+        (St.init staleWorld 0 staleObj staleCls true false))).map
+      (fun r => (r.1.objs.map (fun o => (o.itraits.get ['a']).map (·.tag)), r.2)) =
+    some ([some 9], .ok (.trait (some { kind := .trait, dflt := .int 7, tag := 9 }))) := by
+  decide +kernel
+
+open TraitsVerif.Model.ResL in
+/-- `add_trait(name, trait)` and `remove_trait(name)` of the model are the
+interpretation of the Python methods (statements about companion `_items` /
+mapped traits and about static notifiers are `ghost`: their text is pinned by
+the translator, anything else in their place makes the interpreter stuck). -/
+theorem C13_add_remove_is_source (E : Env) (w : World) (oi : Nat) (o : Obj) (c : Cls) (name : Name)
+    (nI nO : Bool) (hI : nI = true → o.itraits = []) (ho : w.objs[oi]? = some o) :
+    (∀ t : Trait, asPy (user7 E .m_add_trait [.obj, .name name, .trait t] (St.init w oi o c nI nO))
+        = some (addTrait w oi o c name t)) ∧
+    asPy (user7 E .m_remove_trait [.obj, .name name] (St.init w oi o c nI nO))
+      = some (removeTrait w oi o c name) :=
+  ⟨fun t => add_trait_src E w oi o c name t nI nO hI, remove_trait_src E w oi o c name nI nO hI ho⟩
+
+open TraitsVerif.Model.ResL in
+/-- `trait(name, force, copy)` is `_trait(name, -1 if force else 0)` (cloned when
+`copy`), `base_trait(name)` is `_trait(name, -2)`: the translated bodies are
+the ones `Op.getTrait` was written for (a rigid tie: any edit breaks it). -/
+theorem C13_trait_methods_are_modelled :
+    Generated.ResolvePy.trait_method.body =
+      [.expr (.asg .l0 (.lit (.int 0))),
+       .ite (.var .p2) [.expr (.asg .l0 (.lit (.int (-1))))] [],
+       .expr (.asg .l1 (.call .m_trait [.var .p0, .var .p1, .var .l0])),
+       .ite (.or (.not (.var .p3)) (.call .eq [.var .l1, .lit .none])) [.ret (.var .l1)] [],
+       .ret (.call .clone_trait [.var .l1])] ∧
+    Generated.ResolvePy.trait_method.params = [.p0, .p1, .p2, .p3] ∧
+    Generated.ResolvePy.trait_method_defaults = ["False", "False"] ∧
+    Generated.ResolvePy.base_trait.body = [.ret (.call .m_trait [.var .p0, .var .p1, .lit (.int (-2))])] ∧
+    Generated.ResolvePy.base_trait.params = [.p0, .p1] :=
+  ⟨rfl, rfl, rfl, rfl, rfl⟩
 
 /-! ## Longest prefix -/
 
@@ -263,6 +523,25 @@ def C13_cache_coherent_full : Prop :=
 
 def intTrait : Trait := { kind := .trait, dflt := .int 0, validator := some 0, tag := 1 }
 def strTrait : Trait := { kind := .trait, dflt := .str "", validator := some 1, tag := 2 }
+
+/-- Non-vacuity of the start-state hypotheses, and the interpretation running on
+a concrete world: `a.xy = 1` on a fresh instance of `class A(HasTraits): x_ =
+Int` (NULL dictionaries) goes through the prefix fallback and caches `xy` in
+the class dictionary — the same world the model's `step` produces. -/
+example :
+    ∃ o c, (run Env.sample World.init [.mkClass [0] [(['x', '_'], intTrait)], .new 3]).1.objs[0]? = some o ∧
+      (run Env.sample World.init [.mkClass [0] [(['x', '_'], intTrait)], .new 3]).1.classes[o.cls]? = some c ∧
+      o.itraits = [] ∧ o.dict = [] ∧ TraitsVerif.Model.ResL.NoStar c ∧
+      (step Env.sample (run Env.sample World.init [.mkClass [0] [(['x', '_'], intTrait)], .new 3]).1
+        (.set 0 ['x', 'y'] (.int 1))).2 = .ok .done := by
+  refine ⟨{ cls := 3 }, mkClass [clsHasTraits] [(['x', '_'], intTrait)], by decide, by decide, rfl, rfl, ?_, by decide⟩
+  intro e he
+  have : (mkClass [clsHasTraits] [(['x', '_'], intTrait)]).prefixes.map (·.1) =
+      ["_traits_cache_".toList, ['x'], []] := by decide
+  have hm := List.mem_map_of_mem (f := (·.1)) he
+  rw [this] at hm
+  simp only [List.mem_cons, List.mem_nil_iff, or_false] at hm
+  rcases hm with h | h | h <;> rw [h] <;> decide
 
 /-- `class A(HasTraits): x_ = Int`; `A().xy`; `class B(A): xy_ = Str`; `B()`. -/
 def lateSubclass : List Op :=
